@@ -143,6 +143,10 @@ class RecContext(_real_ssl.SSLContext):
         net = RecContext.net
         if self.rec_user_id is not None:
             pol = f"user/{self.rec_user_id}/{hx(server_hostname or '')}"
+            # a context the CALLER made is used as it is: whatever the library adds to its trust store shows in the policy
+            touched = [c[0] for c in self.rec_calls if c[0] in ("load_default_certs", "load_verify_locations")]
+            if touched:
+                pol += "/trust-store-modified=" + "+".join(touched)
         else:
             pol = (f"fresh/{_cert(self.verify_mode)}/{int(bool(self.check_hostname))}/{self.rec_ca}/"
                    f"{hx(server_hostname or '')}")
